@@ -98,9 +98,24 @@ def run(ctx) -> None:
                     for t in n.targets:
                         if isinstance(t, ast.Name):
                             rel_vars.add(t.id)
+        # roles: the producer's stage = first name unpacked from ParseDataReferenceFull(..); the consumer's own stage = a local
+        # read from component.get('stage') (possibly 'x or 0')
+        prod_stage = {n.targets[0].elts[0].id for n in source.walk_own(fn, include_nested=True)
+                      if isinstance(n, ast.Assign) and isinstance(n.targets[0], ast.Tuple) and n.targets[0].elts
+                      and isinstance(n.targets[0].elts[0], ast.Name) and isinstance(n.value, ast.Call) and last_attr(n.value) == "ParseDataReferenceFull"}
+        own_stage = set(match.locals_where(fn, lambda v: "'stage'" in source.src(v) and "component" in source.src(v)))
+        changed = True
+        while changed:
+            changed = False
+            for nm in match.locals_where(fn, lambda v: any(isinstance(x, ast.Name) and x.id in own_stage for x in ast.walk(v))
+                                         and not isinstance(v, (ast.Call, ast.Dict, ast.List, ast.ListComp))):
+                if nm not in own_stage:
+                    own_stage.add(nm)
+                    changed = True
         stage_eq = match.test_nodes(c_, lambda t: "T" if (match.compare_parts(t) and isinstance(match.compare_parts(t)[1], ast.Eq)
-                                                          and {source.src(match.compare_parts(t)[0]), source.src(match.compare_parts(t)[2])} in
-                                                          ({"stage_index", "owner_stage"}, {"stage_index", "comp_stage"})) else None)
+                                                          and isinstance(match.compare_parts(t)[0], ast.Name) and isinstance(match.compare_parts(t)[2], ast.Name)
+                                                          and ((match.compare_parts(t)[0].id in prod_stage and match.compare_parts(t)[2].id in own_stage)
+                                                               or (match.compare_parts(t)[2].id in prod_stage and match.compare_parts(t)[0].id in own_stage))) else None)
         for node in c_.nodes:
             if node.ast is None or node.kind not in ("stmt", "for"):
                 continue
@@ -238,17 +253,34 @@ def run(ctx) -> None:
     # ---------------- R3 -------------------------------------------------------------------------------
     cfg = CFG(app)
     ctx.paths += cfg.paths_count()
-    adds = match.nodes_calling(cfg, lambda c: last_attr(c) == "append" and dotted(c.func.value) == "replicated_refs")
+    # roles in apply_replicate: the list handed to compile_component_replica/aggregate as their last argument; the pair
+    # unpacked from replicate_instructions[<reference id>]; the output list; the component's own (replicate, aggregate) pair
+    cc = [c for c in source.calls_in(app) if last_attr(c) in ("compile_component_replica", "compile_component_aggregate") and c.args
+          and isinstance(c.args[-1], ast.Name)]
+    REFS = cc[0].args[-1].id if cc else "replicated_refs"
+    pairs = [n for n in source.walk_own(app) if isinstance(n, ast.Assign) and isinstance(n.targets[0], ast.Tuple) and len(n.targets[0].elts) == 2
+             and all(isinstance(e, ast.Name) for e in n.targets[0].elts) and isinstance(n.value, ast.Subscript)
+             and "replicate_instructions" in source.src(n.value)]
+    # the pair looked up for a *reference* is assigned inside the loop over the references (deeper), the component's own pair first
+    pairs.sort(key=lambda n: n.col_offset)
+    OWN_AGG = pairs[0].targets[0].elts[1].id if pairs else "aggregate"
+    REF_REPL, REF_AGG = (pairs[-1].targets[0].elts[0].id, pairs[-1].targets[0].elts[1].id) if len(pairs) >= 2 else ("ref_replicate", "is_aggregate")
+    rets = [r.value.id for r in source.walk_own(app) if isinstance(r, ast.Return) and isinstance(r.value, ast.Name)]
+    OUT = rets[0] if rets else "all_components"
+    outer_loops = [n for n in source.walk_own(app) if isinstance(n, ast.For) and any(
+        isinstance(c, ast.Call) and last_attr(c) == "append" and dotted(c.func.value) == OUT for c in ast.walk(n))]
+    COMPS = outer_loops[0].iter.id if outer_loops and isinstance(outer_loops[0].iter, ast.Name) else "flowir_components"
+    adds = match.nodes_calling(cfg, lambda c: last_attr(c) == "append" and dotted(c.func.value) == REFS)
     ctx.require(bool(adds), "anchor missing: replicated_refs.append in apply_replicate")
     t_notnone = match.test_nodes(cfg, lambda t: "T" if (match.compare_parts(t) and isinstance(match.compare_parts(t)[0], ast.Name)
-                                                        and match.compare_parts(t)[0].id == "ref_replicate"
+                                                        and match.compare_parts(t)[0].id == REF_REPL
                                                         and isinstance(match.compare_parts(t)[1], ast.IsNot)) else None)
     t_pos = match.test_nodes(cfg, lambda t: "T" if (match.compare_parts(t) and isinstance(match.compare_parts(t)[0], ast.Name)
-                                                    and match.compare_parts(t)[0].id == "ref_replicate"
+                                                    and match.compare_parts(t)[0].id == REF_REPL
                                                     and isinstance(match.compare_parts(t)[1], ast.Gt)
                                                     and isinstance(match.compare_parts(t)[2], ast.Constant)
                                                     and match.compare_parts(t)[2].value == 0) else None)
-    t_notagg = match.test_nodes(cfg, lambda t: match.polarity(t, lambda e: isinstance(e, ast.Name) and e.id == "is_aggregate"))
+    t_notagg = match.test_nodes(cfg, lambda t: match.polarity(t, lambda e: isinstance(e, ast.Name) and e.id == REF_AGG))
     for a in adds:
         ok = bool(t_pos) and match.only_via_edges(cfg, a, t_pos)
         ctx.ob("C03.R3-apply-replicate", a.ast, ok, "a reference is replicated only if its producer's propagated count is > 0" if ok else
@@ -258,8 +290,8 @@ def run(ctx) -> None:
                "a reference to an aggregating producer can be treated as replicated (the consumer would be copied past the aggregation point)",
                construct="replicated_refs.append <- is_aggregate is False")
     # ref_replicate / is_aggregate come from replicate_instructions[(stage, producer)]
-    emits = match.nodes_calling(cfg, lambda c: last_attr(c) == "append" and dotted(c.func.value) == "all_components")
-    outer = [n for n in cfg.nodes if n.kind == "for" and isinstance(n.ast.iter, ast.Name) and n.ast.iter.id == "flowir_components"
+    emits = match.nodes_calling(cfg, lambda c: last_attr(c) == "append" and dotted(c.func.value) == OUT)
+    outer = [n for n in cfg.nodes if n.kind == "for" and isinstance(n.ast.iter, ast.Name) and n.ast.iter.id == COMPS
              and any(e.ast is not None and any(e.ast is x for x in ast.walk(n.ast)) for e in emits)]
     ctx.require(bool(outer) and bool(emits), "anchor missing: emission loop of apply_replicate")
     head = outer[0]
@@ -270,11 +302,11 @@ def run(ctx) -> None:
     ok = head.id not in r
     ctx.ob("C03.R3-apply-replicate", head.ast, ok, "every component is emitted (aggregate / replicas / unchanged)" if ok else
            "a component can be dropped from the expanded workflow (no branch emits it)", construct="emission: aggregate | replicate | unchanged")
-    agg_tests = match.test_nodes(cfg, lambda t: "T" if isinstance(t, ast.Name) and t.id == "aggregate" else None)
+    agg_tests = match.test_nodes(cfg, lambda t: "T" if isinstance(t, ast.Name) and t.id == OWN_AGG else None)
     for e in emits:
         call = [c for c in own_calls(e.ast) if last_attr(c) == "append"][0]
         arg = source.src(call.args[0]) if call.args else ""
-        if arg == "comp":
+        if arg == (outer_loops[0].target.id if outer_loops and isinstance(outer_loops[0].target, ast.Name) else "comp"):
             ok = bool(agg_tests) and match.only_via_edges(cfg, e, [(n, "F") for n, _ in agg_tests])
             ctx.ob("C03.R3-apply-replicate", e.ast, ok, "a component is left unchanged only if it neither aggregates nor replicates" if ok else
                    "the unchanged branch is reachable for an aggregating component")
@@ -285,7 +317,8 @@ def run(ctx) -> None:
     ok = bool(loops)
     ctx.ob("C03.R4-propagation", loops[0] if loops else prop, ok, "replica counts are propagated in topological order" if ok else
            "propagate_replicate no longer visits nodes in topological order", construct="for node in networkx.topological_sort(g)")
-    pr = match.assigned_value(prop, "predecessor_replicate")
+    pr = [v for nm in match.locals_where(prop, lambda v: isinstance(v, ast.ListComp) and isinstance(v.elt, ast.IfExp))
+          for v in match.assigned_value(prop, nm)]
     ok = False
     if pr and isinstance(pr[0], ast.ListComp) and isinstance(pr[0].elt, ast.IfExp):
         ie = pr[0].elt
